@@ -78,6 +78,9 @@ class DSDChunk(DSFChunk):
 
         self.total_size = cdata.ulonglong_le(data[12:20])
         self.offset_metdata_chunk = cdata.ulonglong_le(data[20:28])
+        if self.offset_metdata_chunk > 2 ** 63 - 1:
+            # not a possible file offset
+            raise error("DSF metadata pointer out of range")
 
     def write(self):
         f = BytesIO()
